@@ -516,11 +516,18 @@ class PkgGen:
             nn = self.names.pick(CLASSES, used, self.private_rate, cls=True)
             if shadow and r.random() < self.ties and shadow[-1][0] not in used:
                 nn = shadow[-1][0]
-            c["classes"].append(self.class_(ag, nn, f"{qname}.{nn}", [], depth_left - 1))
+            k = self.class_(ag, nn, f"{qname}.{nn}", [], depth_left - 1)
+            # the nested class shares an attribute name with its owner (each class has its own attribute of that name)
+            shared = [a["name"] for a in c["attrs"] + c["inst_attrs"]]
+            if shared and shared[0] not in {a["name"] for a in k["attrs"] + k["inst_attrs"]} | {f["name"] for f in k["methods"]}:
+                k["attrs"].append({"name": shared[0], "ann": ("int",), "value": "0", "doc": ""})
+            c["classes"].append(k)
         c["extras"] = {"setters": r.random() < 0.5, "overload": r.random() < 0.15, "subscript": r.random() < 0.4,
                        "seq_base": r.random() < 0.1 and not c["bases"]}
         # an overloaded static method: its implementation is itself decorated
         c["extras"]["overload_static"] = c["extras"]["overload"] and len(name) % 2 == 0
+        # nested classes are written before the attributes and the constructor of their owner
+        c["extras"]["nested_first"] = len(name) % 2 == 1
         if r.random() < self.docs:
             c["doc"] = self.marker(f"class {name}")
         # documented attributes (numpydoc / google only: an "Attributes" section of the class docstring)
@@ -700,6 +707,10 @@ def class_src(c, indent: str, style: str) -> list[str]:
     if cdoc:
         lines.append(cdoc.rstrip("\n"))
     body = False
+    if ex.get("nested_first"):
+        for k in c["classes"]:
+            lines += class_src(k, inner, style)
+            body = True
     for a in c["attrs"]:
         s = f"{inner}{a['name']}"
         if a["ann"] is not None:
@@ -733,9 +744,10 @@ def class_src(c, indent: str, style: str) -> list[str]:
                       f"{inner}@overload", f"{inner}@staticmethod", f"{inner}def ovs_{c['name'].strip('_')}(v: str) -> str: ...",
                       f"{inner}@staticmethod", f"{inner}def ovs_{c['name'].strip('_')}(v):", f"{inner}    return v", ""]
         body = True
-    for k in c["classes"]:
-        lines += class_src(k, inner, style)
-        body = True
+    if not ex.get("nested_first"):
+        for k in c["classes"]:
+            lines += class_src(k, inner, style)
+            body = True
     if not body and not c["doc"]:
         lines.append(f"{inner}...")
     elif not body:
